@@ -99,4 +99,24 @@ CLAIMS = {
           'Three recorded findings (mis-localised syntax / too-many errors). Trusted: TLC, plan application in lib/c03.py.',
   'technique': 'TLC enumeration of fault plans over the exported map + injection into TLC-generated documents + TLC trace validation of the recorded error trees and acknowledgements',
  },
+ 'C12': {
+  'text': 'Model: TLC checks on Delims.tla that the tokenizer definition recovers every bounded abstract document from every encoding (all triples of distinct delimiters out of 4-5 candidate '
+          'characters incl. LF, x none/LF/CRLF/CR: 182k states). Code: abstract documents - conformant ones from TLC DocGen for real maps (both fill modes), singly-faulted ones from the TLC fault '
+          'plans of C03 (every kind), and buffer-sized 837 documents with the terminators shifted over 24/48 alignments - are rendered under 8/14 encodings (4 delimiter triples incl. newline-terminated '
+          'and binary separators x line-break conventions) and validated by the real x12n_document; per document TLC (T_Delims) requires verdict, error set (level, code, segment position, element and '
+          'component position, offending value) and acknowledgement body to equal those of the reference encoding.',
+  'note': 'Delimiters never occur in the data (excluded by the property); offending values and acknowledgement elements are compared after mapping delimiter characters to canonical ones; '
+          'the binary triple uses ">" as component separator (a control character in ISA16 is itself rejected). Trusted: TLC, concretiser/renderer, recorders.',
+  'technique': 'TLA+ model checking (TLC) of Oracle o Encode = id + metamorphic replay of TLC-generated documents under all encodings + TLC trace validation of the observations',
+ },
+ 'C18': {
+  'text': 'TLC enumerates Session.tla: every history of <=2 (thorough: kept histories of <=3 plus a spec-defined sample of 3-4) library calls over 8 documents (valid/invalid 837P 4010, many-AK3 837P, '
+          'valid/invalid 834 5010, 835, 270, two-interchange/eight-group file) x {validate with all sinks, context iteration, xml->x12 conversion} x reuse {none, params, maps}; each history is executed '
+          'in one fresh interpreter (hash seeds in rotation), Fresh(doc,kind) comes from one-call fresh interpreters under 6/12 hash seeds; verdict, error tree, XML, HTML, acknowledgement, node listing / '
+          'converted text (masked only for ack date/time/control numbers and the HTML date line) and a fingerprint of watched globals are recorded as digests and trace-validated by TLC (T_Session): '
+          'Obs = Fresh(doc,kind) for every call, globals unchanged, and all fresh processes of one (doc,kind) agree whatever their hash seed.',
+  'note': 'Bounded corpus and history length; stages stop at a deadline and the evidence records exhaustive=false if the exhaustive part was cut short; TLC contributes enumeration and the equality verdicts, '
+          'the leak itself is only visible by running the code; SHA-1 digests stand for texts; reuse=maps goes through a wrapper of map_if.load_map_file. Trusted: TLC, masking/projection in lib/c18_worker.py.',
+  'technique': 'TLA+ model checking (TLC) + replay of TLC-enumerated call histories in fresh interpreters + TLC trace validation of the recorded observations',
+ },
 }
